@@ -9,6 +9,7 @@ import DisjointImpls.Key
 import DisjointImpls.Bounds
 import DisjointImpls.Validate
 import DisjointImpls.Canon
+import DisjointImpls.Group
 import DisjointImpls.Lemmas.MatchSound
 import DisjointImpls.Lemmas.RevSubLemmas
 open DI
@@ -76,6 +77,18 @@ def handle (cmd : String) (args : List Sx) : Sx :=
       let g := (implGenerics item).getD (.node "?" [] [])
       .list ((findBounds g).map (fun b => .list [b.bounded.toSx, b.tr.toSx,
         .list (b.binds.map (fun (n, t) => .list [.str n, t.toSx])), boolSx b.maybe]))
+  | "parse", items =>
+      let abgSx := fun (g : ABG) => Sx.list [
+        .list (g.bounds.map (fun e => .list [e.1.1.toSx, e.1.2.toSx,
+          .list (e.2.map (fun r => .list (r.map (fun (x, p) => .list [.str x, p.toSx]))))])),
+        .list (g.unsized.map T.toSx)]
+      match parseGroups items with
+      | .ok groups => .list [.sym "ok", .list (groups.map (fun e =>
+          .list [e.1.toSx, .list (e.2.2.map (fun b => b.item.toSx)), abgSx e.2.1,
+            .list (e.2.1.idents.map (fun kx => .list [kx.1.1.toSx, kx.1.2.toSx, .str kx.2])),
+            .list (e.2.1.payloads.map (fun row => .list (row.map (fun o => match o with | some p => .list [.sym "some", p.toSx] | none => .list [.sym "none"]))))]))]
+      | .unableToForm id => .list [.sym "unable", id.toSx]
+      | .panic e => .list [.sym "panic", .str (match e with | .unwrapNone => "unwrap-none" | .fuel => "fuel")]
   | "rows", [rows] =>
       -- does some member's row generalise another's (code: `is_overlapping`, lib.rs:342-368)? list of offending ordered pairs
       let rs := match rows with
